@@ -70,3 +70,9 @@ Theorem C07_must_calls_are_the_structure_builders :
   = ["cose.encrypt0Message_toEnc"; "cose.encryptMessage_toEnc"; "cose.mac0Message_toMac"; "cose.macMessage_toMac"; "cose.sign1Message_toSign"; "cose.signMessage_toSign"]%string.
 Proof. exact must_calls_are_the_structure_builders. Qed.
 Print Assumptions C07_must_calls_are_the_structure_builders.
+
+(* GetMap (CoseMap / Headers / ClaimsMap / Key) on a decoded map: a value or an error for every map and label; a nested
+   map whose keys are not all integers or text is an error (931bc34: a null key used to make toKey panic) *)
+Theorem C07_get_map_never_panics : forall m l, get_map m l <> Panic.
+Proof. exact get_map_np. Qed.
+Print Assumptions C07_get_map_never_panics.
